@@ -336,11 +336,15 @@ class SecureSession(TCPTransport, _IPSecureTransportLayer):
             self.unregister_callback(self._session_status_handler)
             self._session_status_handler = None
         if self.transport and self.initialized:
-            self.send(
-                KNXIPFrame.init_from_body(
-                    SessionStatus(status=SecureSessionStatusCode.STATUS_CLOSE)
+            try:
+                self.send(
+                    KNXIPFrame.init_from_body(
+                        SessionStatus(status=SecureSessionStatusCode.STATUS_CLOSE)
+                    )
                 )
-            )
+            except IPSecureError as err:
+                # eg. sequence counter exhausted - the session shall be torn down nevertheless
+                ip_secure_logger.warning("Could not send SessionStatus CLOSE: %s", err)
         self.stop_keepalive_task()
         self.initialized = False
         super().stop()
